@@ -503,6 +503,28 @@ impl Property for C19 {
                 ctx.label("void_element_with_children");
             }
         }
+        // (late draw) an attribute value with '&' right before '{' (XSLT's html method leaves that one raw; the statement does not)
+        if src.ratio(1, 8) {
+            fn add_href(n: &mut ANode) -> bool {
+                if let ANode::Element(e) = n {
+                    if !e.attrs.iter().any(|(q, _)| q.local == "href") {
+                        e.attrs.push((QName::new("", "href"), "?q=1&{x}&amp;y".to_string()));
+                        return true;
+                    }
+                }
+                if let Some(ch) = n.children_mut() {
+                    for c in ch.iter_mut() {
+                        if add_href(c) {
+                            return true;
+                        }
+                    }
+                }
+                false
+            }
+            if add_href(&mut doc) {
+                ctx.label("attribute_with_amp_brace");
+            }
+        }
         // (late draw) a foreign namespace URI that needs escaping where it is written as an attribute value
         if src.ratio(1, 5) && uses(&doc, "urn:f") {
             replace_uri(&mut doc, "urn:f", "urn:f?a=1&b=\"2\"");
